@@ -14,6 +14,8 @@ import (
 	"fmt"
 	"math"
 	"os"
+	"reflect"
+	"unsafe"
 )
 
 type vReplayFile struct {
@@ -198,3 +200,57 @@ func vFormatOpaque(on bool) {}
 // path is acceptable (the program under test legitimately does not
 // terminate); without it a budget hit makes the check fail.
 func vBudgetOK() {}
+
+// vHavoc makes every scalar leaf reachable from *ptr through struct fields
+// and array elements arbitrary (strings: length 0..maxStr, arbitrary
+// bytes); pointers, slices, maps, interfaces and funcs are left as they
+// are.  Natively the leaves are filled from the replay model by field path.
+func vHavoc(name string, ptr interface{}, maxStr int) {
+	vHavocWalk(name, reflect.ValueOf(ptr).Elem(), maxStr)
+}
+
+func vHavocWalk(path string, v reflect.Value, maxStr int) {
+	if !v.CanSet() && v.CanAddr() {
+		v = reflect.NewAt(v.Type(), unsafe.Pointer(v.UnsafeAddr())).Elem()
+	}
+	switch v.Kind() {
+	case reflect.Bool:
+		v.SetBool(vModel[vName(path)] != 0)
+	case reflect.Int, reflect.Int8, reflect.Int16, reflect.Int32, reflect.Int64:
+		v.SetInt(int64(vModel[vName(path)]))
+	case reflect.Uint, reflect.Uint8, reflect.Uint16, reflect.Uint32, reflect.Uint64, reflect.Uintptr:
+		v.SetUint(vModel[vName(path)])
+	case reflect.String:
+		n := int(vModel["choice:"+path+".len"])
+		b := make([]byte, n)
+		for i := range b {
+			b[i] = byte(vModel[vName(fmt.Sprintf("%s[%d]", path, i))])
+		}
+		v.SetString(string(b))
+	case reflect.Struct:
+		for i := 0; i < v.NumField(); i++ {
+			vHavocWalk(path+"."+v.Type().Field(i).Name, v.Field(i), maxStr)
+		}
+	case reflect.Array:
+		for i := 0; i < v.Len(); i++ {
+			vHavocWalk(fmt.Sprintf("%s[%d]", path, i), v.Index(i), maxStr)
+		}
+	}
+}
+
+// vSetupOnce runs f once per engine worker outside the path journal (the
+// state it builds is reused by every path; what a path does to it is undone
+// at the end of the path).  Natively f runs every time.
+func vSetupOnce(key string, f func()) { f() }
+
+var vEnvPool [4]*Zlisp
+
+// vEnvs returns n fresh-looking sandboxed interpreters built once per worker.
+func vEnvs(n int) []*Zlisp {
+	vSetupOnce("envpool", func() {
+		for i := range vEnvPool {
+			vEnvPool[i] = NewZlispSandbox()
+		}
+	})
+	return vEnvPool[:n]
+}
